@@ -193,7 +193,7 @@ def run(ctx):
         if ok and atom[0] in ('addr', 'kh') and atom[2][0] <= 3 and atom[2][-1] == 0 and reader != 'blind':
             ctx.sample({'atom': atom, 'reader': reader, 'bytes': bytes(byts).hex(), 'readable': concretize(atom)}, limit=4)
     n_atoms = len({a for a, _ in seen})
-    expect = len(fillers) * len(firsts) * len(lasts) * (7 * 4 + 4 + 4 + 5 + 1)
+    expect = len(fillers) * len(firsts) * len(lasts) * (7 * 4 + 4 + 4 + 5 + 1) + 4      # + the PACK look-alikes
     if n_atoms != expect:
         raise MachineryError('TLC exported %d atoms, expected %d' % (n_atoms, expect))
     ctx.exhaustive = True
